@@ -29,6 +29,7 @@ import (
 	"math/big"
 	"net/http/httptest"
 	"os"
+	"reflect"
 	"runtime/debug"
 	"sort"
 	"strconv"
@@ -37,6 +38,7 @@ import (
 	"sync/atomic"
 	"testing"
 	"time"
+	"unsafe"
 
 	ethabi "github.com/ethereum/go-ethereum/accounts/abi"
 	ethcommon "github.com/ethereum/go-ethereum/common"
@@ -380,17 +382,88 @@ func (n *evNode) describe(m *common.MessagePublication) map[string]interface{} {
 	return map[string]interface{}{"tx": tx, "blk": blk, "sender": snd, "seq": int(m.Sequence), "cl": int(m.ConsistencyLevel), "intact": intact}
 }
 
+// evPendingEntry is a field-by-name view of one entry of the watcher's pending map.  The map is read by reflection so
+// that a change which moves a component between the key and the value (or renames one) leaves the harness building:
+// such a change has to be judged by the behaviour it causes, not end as "cannot decide".
+type evPendingEntry struct {
+	TxHash, BlockHash ethcommon.Hash
+	EmitterAddress    vaa.Address
+	Sequence          uint64
+	height            uint64
+	ptr               uintptr
+}
+
+func evField(v reflect.Value, names ...string) (reflect.Value, bool) {
+	for v.Kind() == reflect.Ptr || v.Kind() == reflect.Interface {
+		if v.IsNil() {
+			return reflect.Value{}, false
+		}
+		v = v.Elem()
+	}
+	if v.Kind() != reflect.Struct {
+		return reflect.Value{}, false
+	}
+	for _, nm := range names {
+		f := v.FieldByNameFunc(func(s string) bool { return strings.EqualFold(s, nm) })
+		if f.IsValid() {
+			if !f.CanInterface() && f.CanAddr() {
+				f = reflect.NewAt(f.Type(), unsafe.Pointer(f.UnsafeAddr())).Elem()
+			}
+			return f, true
+		}
+	}
+	return reflect.Value{}, false
+}
+
+// evPending lists the pending map (caller holds no lock).
+func evPending(w *Watcher) []evPendingEntry {
+	w.pendingMu.Lock()
+	defer w.pendingMu.Unlock()
+	var res []evPendingEntry
+	mv := reflect.ValueOf(w.pending)
+	if mv.Kind() != reflect.Map {
+		return nil
+	}
+	it := mv.MapRange()
+	for it.Next() {
+		kc := reflect.New(it.Key().Type()).Elem()
+		kc.Set(it.Key())
+		val := it.Value()
+		var e evPendingEntry
+		if val.Kind() == reflect.Ptr && !val.IsNil() {
+			e.ptr = val.Pointer()
+		} else {
+			vc := reflect.New(val.Type()).Elem()
+			vc.Set(val)
+			val = vc
+		}
+		get := func(dst interface{}, names ...string) {
+			for _, src := range []reflect.Value{kc, val} {
+				if f, ok := evField(src, names...); ok && f.Type() == reflect.TypeOf(dst).Elem() {
+					reflect.ValueOf(dst).Elem().Set(f)
+					return
+				}
+			}
+		}
+		get(&e.TxHash, "TxHash")
+		get(&e.BlockHash, "BlockHash")
+		get(&e.EmitterAddress, "EmitterAddress")
+		get(&e.Sequence, "Sequence")
+		get(&e.height, "height")
+		res = append(res, e)
+	}
+	return res
+}
+
 func (n *evNode) pendingKeys() []interface{} {
 	type raw struct {
-		key    pendingKey
+		key    evPendingEntry
 		height uint64
 	}
 	var raws []raw
-	n.w.pendingMu.Lock()
-	for key, pm := range n.w.pending {
-		raws = append(raws, raw{key, pm.height})
+	for _, e := range evPending(n.w) {
+		raws = append(raws, raw{e, e.height})
 	}
-	n.w.pendingMu.Unlock()
 	type k struct {
 		tx          string
 		n, g        int
@@ -1093,7 +1166,15 @@ func (r *evRun) pushLog(st evStep) bool {
 	lg := n.concreteLog(tx, idx, rc)
 	l := n.txs[tx][idx]
 	delivered := n.matches(lg) && !l.Null
-	key := pendingKey{TxHash: lg.TxHash, BlockHash: lg.BlockHash, EmitterAddress: PadAddress(n.sender(l.Sender)), Sequence: uint64(l.Seq)}
+	key := evPendingEntry{TxHash: lg.TxHash, BlockHash: lg.BlockHash, EmitterAddress: PadAddress(n.sender(l.Sender)), Sequence: uint64(l.Seq)}
+	lookup := func() (uintptr, uint64, bool) {
+		for _, e := range evPending(r.w) {
+			if e.TxHash == key.TxHash && e.BlockHash == key.BlockHash && e.EmitterAddress == key.EmitterAddress && e.Sequence == key.Sequence {
+				return e.ptr, e.height, true
+			}
+		}
+		return 0, 0, false
+	}
 	n.mu.Unlock()
 	hold := delivered && (vhBool(st.A, "hold") || len(st.Mid) > 0)
 	if delivered && !hold {
@@ -1102,9 +1183,7 @@ func (r *evRun) pushLog(st evStep) bool {
 			return false
 		}
 	}
-	r.w.pendingMu.Lock()
-	before := r.w.pending[key]
-	r.w.pendingMu.Unlock()
+	before, _, _ := lookup()
 	n.mu.Lock()
 	n.drain()
 	n.emit("PushLog", map[string]interface{}{"tx": tx, "i": idx + 1, "delivered": delivered, "hold": hold}, nil)
@@ -1160,9 +1239,7 @@ func (r *evRun) pushLog(st evStep) bool {
 		}
 	}
 	ok := r.waitFor(func() bool {
-		r.w.pendingMu.Lock()
-		now, in := r.w.pending[key]
-		r.w.pendingMu.Unlock()
+		now, _, in := lookup()
 		return in && now != before
 	})
 	if !ok {
